@@ -92,9 +92,9 @@ PROPS = {
         real_vs_stub=REAL,
         assumptions=COMMON_ASSUME + ["throw sites and kinds are exhaustive per nest; nests are sampled",
                                      "C++ exceptions that cannot be boxed (user class, int) bypass script catch clauses, run finally blocks and leave with their own type, as the code documents",
-                                     "guarded catch clauses (catch(e) : cond) and re-throwing the caught variable are not generated"],
+                                     "guarded catch clauses (catch(e) : cond) are not generated"],
         expected_probes=["probe_no_clause_matched", "probe_try_finally_without_catch", "probe_catch_block_threw", "probe_finally_ran_while_unwinding",
-                         "probe_earlier_clause_skipped", "probe_unrepresentable_bypassed_clauses", "probe_caught_typed"],
+                         "probe_earlier_clause_skipped", "probe_unrepresentable_bypassed_clauses", "probe_caught_typed", "probe_caught_object_thrown_again"],
         **two(40, 420,
               {"plain": {"workers": 10}, "asan": {"workers": 6}},
               {"plain": {"workers": 10}, "asan": {"workers": 6}}),
